@@ -470,10 +470,14 @@ func HarnessC07ParamNames() {
 		p.Items = &spec.Items{}
 		p.Items.Type = "number"
 		p.Items.Maximum = ptrF(2)
-		if verifBool() {
+		switch verifChoose(3) {
+		case 0:
 			p.Items.Default, bad = 3.0, true
-		} else {
+		case 1:
 			p.Items.Default = 1.0
+		default:
+			p.Default = []interface{}{nil} // a default array holding null
+			p.Example = []interface{}{nil}
 		}
 	}
 	op := &spec.Operation{}
@@ -579,5 +583,77 @@ func HarnessC10WholeValidate() {
 	full, _ := run(true)
 	verifAssert(verifSubset(errs.errs, full.errs), "early-stop-errors-subset-of-continue-on-errors")
 	verifAssert(verifIff(full.valid, errs.valid), "verdict-independent-of-continue-on-errors")
+	verifReach("end")
+}
+
+// HarnessC09SimpleItems: defaults and examples on the items of simple parameters and response
+// headers, nested to depth 1 or 2, violating the inner type, enum or maximum.
+func HarnessC09SimpleItems() {
+	inner := &spec.Items{}
+	bad := false
+	switch verifChoose(4) {
+	case 0: // wrong type
+		inner.Type = "integer"
+		if verifBool() {
+			inner.Default, inner.Example, bad = "x", "x", true
+		} else {
+			inner.Default, inner.Example = int64(1), int64(1)
+		}
+	case 1: // outside the enum
+		inner.Type = "string"
+		inner.Enum = []interface{}{"a", "b"}
+		if verifBool() {
+			inner.Default, inner.Example, bad = "zzz", "zzz", true
+		} else {
+			inner.Default, inner.Example = "a", "a"
+		}
+	case 2: // above the maximum
+		inner.Type = "number"
+		inner.Maximum = ptrF(2)
+		if verifBool() {
+			inner.Default, inner.Example, bad = 3.0, 3.0, true
+		} else {
+			inner.Default, inner.Example = 1.0, 1.0
+		}
+	default: // too long
+		inner.Type = "string"
+		inner.MaxLength = ptrI(1)
+		if verifBool() {
+			inner.Default, inner.Example, bad = "ab", "ab", true
+		} else {
+			inner.Default, inner.Example = "a", "a"
+		}
+	}
+	items := inner
+	if verifBool() { // depth 2: items of items
+		items = &spec.Items{}
+		items.Type = "array"
+		items.Items = inner
+	}
+	op := &spec.Operation{}
+	op.ID = "op"
+	op.Responses = &spec.Responses{}
+	if verifBool() {
+		p := spec.Parameter{}
+		p.Name, p.In, p.Type, p.Items = "q", "query", "array", items
+		op.Parameters = []spec.Parameter{p}
+	} else {
+		h := spec.Header{}
+		h.Type, h.Items = "array", items
+		resp := spec.Response{}
+		resp.Description = "ok"
+		resp.Headers = map[string]spec.Header{"X-H": h}
+		op.Responses.StatusCodeResponses = map[int]spec.Response{200: resp}
+	}
+	ops := map[string]map[string]*spec.Operation{"GET": {"/p": op}}
+	s := newSpecHarnessValidator(&spec.Swagger{}, ops, true, true)
+	d := &defaultValidator{SpecValidator: s, schemaOptions: s.schemaOptions}
+	gotD := outcomeOfResult(d.Validate())
+	ex := &exampleValidator{SpecValidator: s, schemaOptions: s.schemaOptions}
+	gotE := outcomeOfResult(ex.Validate())
+	verifObserve("defaults-valid", gotD.valid)
+	verifAssert(gotD.valid == !bad, "rejected-items-default-is-an-error-and-only-then")
+	verifAssert(gotE.valid, "examples-never-make-errors")
+	verifAssert((len(gotE.warns) > 0) == bad, "rejected-items-example-is-a-warning-and-only-then")
 	verifReach("end")
 }
